@@ -353,5 +353,8 @@ def run(ctx, rep):
     r18c(ctx, rep)
     from . import tables
     tables.r18d(ctx, rep)
+    from . import C10
+    C10.r10j(ctx, rep, rule="R18h")
+    rep.rules["R18h"] = "symbol->string decodes every name string->symbol can build: " + rep.rules["R18h"]
     rep.not_decided += ["symbol identity across collection schedules directly (follows from C03's rules)",
                         "round trip of names beyond the escape-introducer clause (R18d)"]
